@@ -1,6 +1,7 @@
 From Coq Require Import List NArith ZArith Bool.
 Import ListNotations.
 Require Import MV.C07.Exec MV.C07.ProofsBase MV.C07.ProofsInv MV.C07.ProofsSpec MV.C07.ProofsClauses MV.C07.ProofsWalk.
+Require Import MV.Common.Interleave MV.C07.ConcModel MV.C07.ConcInv MV.C07.ConcProofs.
 Open Scope N_scope.
 Require Import MV.C07.Properties.
 
@@ -63,3 +64,54 @@ Check (C07_example_nontrivial : wf_names (fst ex_case) = true
   /\ In {| a_fam := [99]; a_type := 0; a_help := None; a_name := [99]; a_labels := [[103; 61; 34; 49; 34]];
            a_extra := XNone; a_val := VInt 1 |} (last (run_case ex_case) [])).
 Print Assumptions C07_example_nontrivial.
+Check (C07_conc_every_sample_once : forall ps sched k,
+  let s := fst (final ps sched) in
+  drained k (c_log s) ++ c_bkt s k = recorded k (c_log s)
+  /\ drained k (c_log s) = aggregated k (c_log s) ++ inflight k (c_lock s)
+  /\ c_agg s k = (N.of_nat (List.length (aggregated k (c_log s))), zsumc (aggregated k (c_log s)))
+  /\ fst (c_agg s k) + N.of_nat (List.length (inflight k (c_lock s))) + N.of_nat (List.length (c_bkt s k))
+     = N.of_nat (List.length (recorded k (c_log s)))
+  /\ (snd (c_agg s k) + zsumc (inflight k (c_lock s)) + zsumc (c_bkt s k))%Z = zsumc (recorded k (c_log s))).
+Print Assumptions C07_conc_every_sample_once.
+Check (C07_conc_drain_takes_all_pushed_before : forall ps sched l1 k xs l2,
+  c_log (fst (final ps sched)) = l1 ++ EDrain k xs :: l2 -> drained k l1 ++ xs = recorded k l1).
+Print Assumptions C07_conc_drain_takes_all_pushed_before.
+Check (C07_conc_render_shows_drained : forall ps sched l1 out l2 k c sm,
+  c_log (fst (final ps sched)) = l1 ++ ESnap out :: l2 -> In (k, (c, sm)) out ->
+  c = N.of_nat (List.length (drained k l1)) /\ sm = zsumc (drained k l1)
+  /\ exists rest, drained k l1 ++ rest = recorded k l1).
+Print Assumptions C07_conc_render_shows_drained.
+Check (C07_conc_visibility : forall ps sched l1 k xs l2 out l3 c sm,
+  c_log (fst (final ps sched)) = l1 ++ EDrain k xs :: l2 ++ ESnap out :: l3 -> In (k, (c, sm)) out ->
+  N.of_nat (List.length (recorded k l1)) <= c
+  /\ exists more, drained k (l1 ++ EDrain k xs :: l2) = recorded k l1 ++ more).
+Print Assumptions C07_conc_visibility.
+Check (C07_conc_count_monotone : forall ps sched l1 o1 l2 o2 l3 k c1 s1 c2 s2,
+  c_log (fst (final ps sched)) = l1 ++ ESnap o1 :: l2 ++ ESnap o2 :: l3 ->
+  In (k, (c1, s1)) o1 -> In (k, (c2, s2)) o2 -> c1 <= c2).
+Print Assumptions C07_conc_count_monotone.
+Check (C07_conc_counter_gauge_reading : forall ps sched,
+  (forall l1 k v l2, c_log (fst (final ps sched)) = l1 ++ ELoadC k v :: l2 -> v = fold_left capply (cupds k l1) 0)
+  /\ (forall l1 k z l2, c_log (fst (final ps sched)) = l1 ++ ELoadG k z :: l2 -> z = fold_left gapply (gupds k l1) 0%Z)
+  /\ (forall l1 k v1 l2 v2 l3, c_log (fst (final ps sched)) = l1 ++ ELoadC k v1 :: l2 ++ ELoadC k v2 :: l3 ->
+      cbound (cupds k (l1 ++ ELoadC k v1 :: l2)) < two64c -> v1 <= v2)).
+Print Assumptions C07_conc_counter_gauge_reading.
+Check (C07_conc_render_twice : forall ps sched l0 k xs m o1 l2 o2 l3 c1 s1 c2 s2,
+  c_log (fst (final ps sched)) = l0 ++ EDrain k xs :: m ++ ESnap o1 :: l2 ++ ESnap o2 :: l3 ->
+  recorded k (m ++ ESnap o1 :: l2) = [] ->
+  In (k, (c1, s1)) o1 -> In (k, (c2, s2)) o2 ->
+  c1 = c2 /\ s1 = s2 /\ c1 = N.of_nat (List.length (recorded k l0)) /\ s1 = zsumc (recorded k l0)).
+Print Assumptions C07_conc_render_twice.
+Check (C07_conc_outputs_are_steps : forall ps sched l r,
+  In l (snd (final ps sched)) -> In r (outs l) ->
+  let log := c_log (fst (final ps sched)) in
+  In (ESnap (r_dist r)) log /\
+  (forall k v, In (k, v) (r_ctr r) -> In (ELoadC k v) log) /\
+  (forall k z, In (k, z) (r_gau r) -> In (ELoadG k z) log)).
+Print Assumptions C07_conc_outputs_are_steps.
+Check (C07_conc_example : outs (nth 2 (snd (final ex_progs ex_sched)) (init_local (0, [])))
+  = [ {| r_ctr := []; r_gau := []; r_dist := [(7, (4, 10%Z))] |};
+      {| r_ctr := [(3, 9)]; r_gau := [(9, 4%Z)]; r_dist := [(7, (5, 15%Z))] |} ]
+  /\ c_lock (fst (final ex_progs ex_sched)) = Free
+  /\ c_bkt (fst (final ex_progs ex_sched)) 7 = []).
+Print Assumptions C07_conc_example.
